@@ -532,7 +532,8 @@ namespace xsimd
             batch_type z = batch_type(1.) - ex * detail::erf_kernel<batch_type>::erfc3(x);
             z = select(self < batch_type(0.), -z, z);
 #ifndef XSIMD_NO_INFINITIES
-            z = select(xsimd::isinf(self), sign(self), z);
+            // x * x overflows from |x| = sqrt(max) on (exp(-xx) * erfc3(x) is then 0 * inf): the limit value is reached
+            z = select(xx == constants::infinity<batch_type>(), sign(self), z);
 #endif
             return select(test2, r1, z);
         }
@@ -593,7 +594,8 @@ namespace xsimd
             batch_type z = ex * detail::erf_kernel<batch_type>::erfc3(x);
             r1 = select(test2, r1, z);
 #ifndef XSIMD_NO_INFINITIES
-            r1 = select(x == constants::infinity<batch_type>(), batch_type(0.), r1);
+            // x * x overflows from |x| = sqrt(max) on (exp(-xx) * erfc3(x) is then 0 * inf): the limit value is reached
+            r1 = select(xx == constants::infinity<batch_type>(), batch_type(0.), r1);
 #endif
             return select(test0, batch_type(2.) - r1, r1);
         }
